@@ -1299,14 +1299,16 @@ breaker('C07', 'gc-wrong-root', 'C07.R1', PACKPY, 'GC.findReachable',
         'self.findReachableAtPacktime(list(self.oid2curpos.keys())[:1])')
 breaker('C07', 'gc-future-backpointer-not-marked', 'C07.R2', PACKPY,
         'GC.findReachableFromFuture',
-        '''                    else:
-                        self.reachable[dh.oid] = dh.back
-''', '')
+        '''                    if dh.back not in L:
+                        L.append(dh.back)
+                        extra_roots.append(dh.back)''',
+        '''                    if dh.back not in L:
+                        extra_roots.append(dh.back)''')
 breaker('C07', 'gc-extra-roots-not-traversed', 'C07.R2', PACKPY,
         'GC.findReachableFromFuture',
-        '''        for pos in extra_roots:
-            refs = self.findrefs(pos)
-            self.findReachableAtPacktime(refs)''', '''        del extra_roots''')
+        '''            refs = [oid for oid in self.findrefs(pos)
+                    if oid in self.oid2curpos]
+            self.findReachableAtPacktime(refs)''', '''            pass''')
 breaker('C07', 'copy-skips-reachable-record', 'C07.R3', PACKPY,
         'FileStoragePacker.copyDataRecords',
         '''            pos += h.recordlen()
@@ -2114,3 +2116,17 @@ twin('C19', 'maxkey-boundary-guard-not-equal-form', FSIPY, 'fsIndex.maxKey',
                     next_prefix = prefix_minus_one(biggest_prefix)
                 else:
                     raise''')
+
+breaker('C07', 'gc-unreachable-backpointer-in-one-slot-table', 'C07.R2', PACKPY,
+        'GC.findReachableFromFuture',
+        '''                    L = self.reach_ex.setdefault(dh.oid, [])
+                    if dh.back not in L:
+                        L.append(dh.back)
+                        extra_roots.append(dh.back)''',
+        '''                    if dh.oid not in self.reachable:
+                        self.reachable[dh.oid] = dh.back
+                        continue
+                    L = self.reach_ex.setdefault(dh.oid, [])
+                    if dh.back not in L:
+                        L.append(dh.back)
+                        extra_roots.append(dh.back)''')
